@@ -31,6 +31,7 @@ class DefGen:
         self.small = {}      # container -> names of small unsigned int params usable as references (with their width)
         self.n = 0
         self.rich = rich
+        self.enum_refs = {}  # container -> [(enum parameter name, listed raw values)] usable in criteria (raw or label comparison)
 
     # ------------------------------------------------------------------ fields
     def uint(self, name, w, order="msb"):
@@ -93,7 +94,13 @@ class DefGen:
             listed = vals if rng.random() < 0.7 else rng.sample(vals, max(1, len(vals) - 1))
             en = [{"raw": crit.tv_int(v), "label": f"L{v}"} for v in listed]
             xdoc.add_param(self.d, name, xdoc.ptype_num("enum", xdoc.numeric_enc("int", w), enum=en))
-            self.enc[name] = lambda ctx, w=w, listed=listed: bits_of(rng.choice(listed) if rng.random() < 0.95 else rng.getrandbits(w), w)
+            def ence(ctx, name=name, w=w, listed=listed):
+                v = ctx["force"].get(name)
+                if v is None:
+                    v = rng.choice(listed) if rng.random() < 0.95 else rng.getrandbits(w)
+                return bits_of(v & ((1 << w) - 1), w)
+            self.enc[name] = ence
+            self.enum_refs.setdefault(cname, []).append((name, listed))
             return name, None
         if k == "bool":
             w = rng.choice([1, 1, 2, 8])
@@ -235,9 +242,21 @@ class DefGen:
             if has_kids:
                 rn, rw = refs[0]
                 kid_specs = [("==", 0), ("==", 1)] if rng.random() < 0.7 else [("<", 2), (">=", 1)]   # second pair overlaps at 1
+                erefs = [e for e in self.enum_refs.get(cname, []) if len(e[1]) >= 2]
+                use_enum = erefs and rng.random() < 0.5
+                if use_enum:      # children selected by an enumerated parameter: by raw value or by label
+                    rn, listed = rng.choice(erefs)
+                    kid_specs = [("==", listed[0]), ("==", listed[1])]
+                    by_label = rng.random() < 0.5
                 for j, (op, v) in enumerate(kid_specs):
                     kname = f"{cname}K{j}"
                     e2, r2 = self.entries_for(kname, refs, shared if rng.random() < 0.3 else None)
+                    if use_enum:
+                        c_ = ({"k": "cmp", "ref": rn, "op": "==", "cal": True, "lit": crit.lit_txt(f"L{v}")} if by_label
+                              else cmp(rn, "==", v, False))
+                        xdoc.add_container(self.d, kname, e2, base=cname, crit_list=[c_])
+                        self.paths.append(([cname, kname], {"APID": a, "TYPE": 0, "VERSION": 0, rn: v}))
+                        continue
                     xdoc.add_container(self.d, kname, e2, base=cname, crit_list=[cmp(rn, op, v, rng.random() < 0.7)])
                     self.paths.append(([cname, kname], {"APID": a, "TYPE": 0, "VERSION": 0, rn: v if op == "==" else (0 if op == "<" else 2)}))
                     if rng.random() < 0.3 and r2 and len(r2) > len(refs):
